@@ -147,6 +147,7 @@ func c20Scripts() []c20Script {
 			c.do(world.Req{Method: "GET", Path: "/auth/recover", ForceForm: true})
 			c.do(flows.RecoverStart(c.s, c.browser, c.pid))
 			tok := c.mailToken("/recover/end", "token")
+			c.do(flows.RecoverEnd(c.s, c.browser, "bm90LWEtdG9rZW4=", "Rec0vered!pw")) // a rejected submission first
 			c.do(flows.RecoverEnd(c.s, c.browser, tok, "Rec0vered!pw"))
 			c.do(flows.Login(c.s, c.browser, c.pid, "Rec0vered!pw", false))
 		}},
